@@ -5,7 +5,7 @@ from . import maps
 
 ID = "C03"
 LEVEL = "exploration"
-BUDGET = {"quick": 1600, "thorough": 120000}
+BUDGET = {"quick": 1600, "thorough": 360000}
 RULE = ("case = op list (set/rem/get/mem/resize(0)/assign/copy/bulk fill+drain) over Tree<K,V> for Int, String and Probe "
         "keys with insertion/removal phases in ascending, descending, alternating-ends, random and universe order, "
         "drain-and-refill; after every mutation the tree is compared with a dict + sorted keys (len, strictly monotone "
